@@ -1144,13 +1144,65 @@ def akeDispatch (K : Crypto) (msgType : Nat) (msg : Bytes) (s : AuthState) :
     pure (m, extra, e)
   else pure (none, [], some (.other "unknown message type"))
 
+/-- whether `processAKE` stamps `lastStateChange` (repaired code): the message was not rejected, and it moved
+    the authentication state (from kind `st` to kind `s2`) or produced a non-empty reply -/
+def akeStampCond (st s2 : AuthState) (single : Option Bytes) (err : Option Err) : Bool :=
+  err.isNone && (s2.toNat != st.toNat || (match single with | some m => !m.isEmpty | none => false))
+
+/-- the end of `processAKE` (repaired code): `lastStateChange` is stamped only for a message that was a step of
+    a key exchange -/
+def akeStamp (st : AuthState) (single : Option Bytes) (err : Option Err) : M Unit := do
+  let s2 := (← getAke).state
+  if akeStampCond st s2 single err then do
+    let t ← now
+    modAke fun a => { a with lastStateChange := some t }
+
 /-- `processAKE` after the authentication state has been read -/
 def akeRest (K : Crypto) (msgType : Nat) (msg : Bytes) (s : AuthState) : M (List Bytes × Option Err) := do
   let (single, extra, err) ← akeDispatch K msgType msg s
-  let t ← now
-  modAke fun a => { a with lastStateChange := some t }
+  akeStamp s single err
   let msgs := (match single with | some m => [m] | none => []) ++ extra
   return (msgs, err)
+
+theorem akeStamp_base (st : AuthState) (single : Option Bytes) (err : Option Err) :
+    Stable BaseFrame (akeStamp st single err) := by
+  unfold akeStamp modAke
+  stable [getAke_base]
+
+/-- the AKE context after the conditional time stamp at time `t` -/
+def stampAke (st : AuthState) (single : Option Bytes) (err : Option Err) (t : Nat) (a : Ake) : Ake :=
+  if akeStampCond st a.state single err then { a with lastStateChange := some t } else a
+
+theorem stampAke_eq (st : AuthState) (single : Option Bytes) (err : Option Err) (t : Nat) (a : Ake) :
+    stampAke st single err t a =
+      { a with lastStateChange := if akeStampCond st a.state single err then some t else a.lastStateChange } := by
+  unfold stampAke; split <;> rfl
+
+@[simp] theorem stampAke_state (st : AuthState) (single : Option Bytes) (err : Option Err) (t : Nat) (a : Ake) :
+    (stampAke st single err t a).state = a.state := by rw [stampAke_eq]
+
+@[simp] theorem stampAke_sentRevealSig (st : AuthState) (single : Option Bytes) (err : Option Err) (t : Nat)
+    (a : Ake) : (stampAke st single err t a).sentRevealSig = a.sentRevealSig := by rw [stampAke_eq]
+
+theorem akeStamp_run (st : AuthState) (single : Option Bytes) (err : Option Err) (s : MState) (a : Ake)
+    (ha : s.conv.ake = some a) :
+    runM (akeStamp st single err) s =
+      .ok (.ok (), { s with conv := { s.conv with ake := some (stampAke st single err s.env.now a) } }) := by
+  unfold akeStamp stampAke
+  simp only [runM_bind, getAke, runM_getc, bindM_ok, ha, runM_pure, runM_ite, modAke, runM_now, runM_modc, Option.map]
+  split
+  · rfl
+  · cases s with
+    | mk c e ev mm =>
+      cases c
+      simp only at ha
+      subst ha
+      rfl
+
+theorem akeStamp_run_none (st : AuthState) (single : Option Bytes) (err : Option Err) (s : MState)
+    (ha : s.conv.ake = none) : runM (akeStamp st single err) s = .panic "nil c.ake" := by
+  unfold akeStamp
+  simp only [runM_bind, getAke, runM_getc, bindM_ok, ha, runM_goPanic, bindM_panic]
 
 theorem bindM_assoc {α β γ} (r : Out α) (f : α → MState → Out β) (g : β → MState → Out γ) :
     bindM (bindM r f) g = bindM r (fun a s => bindM (f a s) g) := by
@@ -1159,6 +1211,10 @@ theorem bindM_assoc {α β γ} (r : Out α) (f : α → MState → Out β) (g : 
   | ok v =>
     obtain ⟨v, s⟩ := v
     cases v <;> rfl
+
+theorem bindM_ite {α β} (c : Prop) [Decidable c] (x y : Out α) (f : α → MState → Out β) :
+    bindM (if c then x else y) f = if c then bindM x f else bindM y f := by
+  split <;> rfl
 
 theorem processAKE_run_at (K : Crypto) (msgType : Nat) (msg : Bytes) (st : AuthState) (s : MState) :
     runM (do
@@ -1182,20 +1238,22 @@ theorem processAKE_run_at (K : Crypto) (msgType : Nat) (msg : Bytes) (st : AuthS
           let extra ← retransmitAfterCompletedExchange K st s' e
           pure (m, extra, e)
         else pure (none, [], some (.other "unknown message type"))
-      let t ← now
-      modAke fun a => { a with lastStateChange := some t }
+      let s2 := (← getAke).state
+      if err.isNone && (s2.toNat != st.toNat || (match single with | some m => !m.isEmpty | none => false)) then do
+        let t ← now
+        modAke fun a => { a with lastStateChange := some t }
       let msgs := (match single with | some m => [m] | none => []) ++ extra
       return (msgs, err)) s = runM (akeRest K msgType msg st) s := by
-  unfold akeRest akeDispatch
+  unfold akeRest akeDispatch akeStamp akeStampCond
   by_cases h1 : msgType = msgTypeDHCommit
-  · simp only [if_pos h1, runM_bind, bindM_assoc, runM_pure, bindM_ok]
+  · simp only [if_pos h1, runM_bind, bindM_assoc, runM_pure, bindM_ok, runM_ite, bindM_ite]
   · by_cases h2 : msgType = msgTypeDHKey
-    · simp only [if_neg h1, if_pos h2, runM_bind, bindM_assoc, runM_pure, bindM_ok]
+    · simp only [if_neg h1, if_pos h2, runM_bind, bindM_assoc, runM_pure, bindM_ok, runM_ite, bindM_ite]
     · by_cases h3 : msgType = msgTypeRevealSig
-      · simp only [if_neg h1, if_neg h2, if_pos h3, runM_bind, bindM_assoc, runM_pure, bindM_ok]
+      · simp only [if_neg h1, if_neg h2, if_pos h3, runM_bind, bindM_assoc, runM_pure, bindM_ok, runM_ite, bindM_ite]
       · by_cases h4 : msgType = msgTypeSig
-        · simp only [if_neg h1, if_neg h2, if_neg h3, if_pos h4, runM_bind, bindM_assoc, runM_pure, bindM_ok]
-        · simp only [if_neg h1, if_neg h2, if_neg h3, if_neg h4, runM_bind, bindM_assoc, runM_pure, bindM_ok]
+        · simp only [if_neg h1, if_neg h2, if_neg h3, if_pos h4, runM_bind, bindM_assoc, runM_pure, bindM_ok, runM_ite, bindM_ite]
+        · simp only [if_neg h1, if_neg h2, if_neg h3, if_neg h4, runM_bind, bindM_assoc, runM_pure, bindM_ok, runM_ite, bindM_ite]
 
 theorem processAKE_run_some (K : Crypto) (msgType : Nat) (msg : Bytes) (s : MState) (a : Ake)
     (ha : s.conv.ake = some a) :
@@ -1255,8 +1313,8 @@ theorem akeDispatch_quiet (K : Crypto) (t : Nat) (msg : Bytes) (st : AuthState)
 
 theorem akeRest_quiet (K : Crypto) (t : Nat) (msg : Bytes) (st : AuthState)
     (h : ¬ finishingCombination t st) : Stable QuietFrame (akeRest K t msg st) := by
-  unfold akeRest modAke
-  stable [akeDispatch_quiet K t msg st h]
+  unfold akeRest
+  stable [akeDispatch_quiet K t msg st h, (akeStamp_base _ _ _).base_strict.strict_quiet]
 
 theorem akeDispatch_strict (K : Crypto) (t : Nat) (msg : Bytes) (st : AuthState)
     (h3 : t ≠ msgTypeRevealSig) (h4 : t ≠ msgTypeSig) : Stable StrictFrame (akeDispatch K t msg st) := by
@@ -1269,8 +1327,8 @@ theorem akeDispatch_strict (K : Crypto) (t : Nat) (msg : Bytes) (st : AuthState)
 
 theorem akeRest_strict (K : Crypto) (t : Nat) (msg : Bytes) (st : AuthState)
     (h3 : t ≠ msgTypeRevealSig) (h4 : t ≠ msgTypeSig) : Stable StrictFrame (akeRest K t msg st) := by
-  unfold akeRest modAke
-  stable [akeDispatch_strict K t msg st h3 h4]
+  unfold akeRest
+  stable [akeDispatch_strict K t msg st h3 h4, (akeStamp_base _ _ _).base_strict]
 
 theorem authStateOf_some {c : Conv} {a : Ake} (h : c.ake = some a) : authStateOf c = a.state := by
   unfold authStateOf; rw [h]
@@ -1481,6 +1539,26 @@ theorem generateNewDHKeyPair_their (K : Crypto) (k : Keys) (r : Option Bytes) :
   unfold Keys.generateNewDHKeyPair
   cases r <;> exact ⟨rfl, rfl, rfl⟩
 
+/-- a `tryCatch` whose handler repairs the conversation and rethrows: the value is the body's; on a throw the
+    final state is the body's final state with the repair applied -/
+theorem tryCatch_restore_cases {α} {x : M α} {f : Conv → Conv} {s s' : MState} {r : Except Err α}
+    (h : runM (tryCatch x (fun e => do modc f; throw e)) s = .ok (r, s')) :
+    (∃ v, r = .ok v ∧ runM x s = .ok (.ok v, s')) ∨
+    (∃ er s1, r = .error er ∧ runM x s = .ok (.error er, s1) ∧ s' = { s1 with conv := f s1.conv }) := by
+  rw [runM_tryCatch] at h
+  cases hx : runM x s with
+  | panic p => rw [hx] at h; cases h
+  | ok v =>
+    obtain ⟨v, s2⟩ := v
+    rw [hx] at h
+    cases v with
+    | ok u =>
+      simp only [catchM_ok, Res.ok.injEq, Prod.mk.injEq] at h
+      left; exact ⟨u, h.1.symm, by rw [h.2]⟩
+    | error er =>
+      simp only [catchM_error, runM_bind, runM_modc, bindM_ok, runM_throw, Res.ok.injEq, Prod.mk.injEq] at h
+      right; exact ⟨er, s2, h.1.symm, rfl, h.2.symm⟩
+
 theorem akeTry_ok_inv {onErr st : AuthState} {x : M (AuthState × Option Bytes × Option Err)} {s s' : MState}
     {om : Option Bytes} {e : Option Err} (hne : onErr ≠ st)
     (h : runM (akeTry onErr x) s = .ok (.ok (st, om, e), s')) : runM x s = .ok (.ok (st, om, e), s') := by
@@ -1533,16 +1611,23 @@ theorem c01_finish_responder (K : Crypto) (msg : Bytes) (s s' : MState) (a : Ake
   simp only at h
   have hx := akeTry_ok_inv (by decide) h
   clear h
+  rw [runM_bind, runM_getc, bindM_ok] at hx
   rw [runM_bind] at hx
   obtain ⟨u, s1, h1, hx⟩ := bindM_ok_inv hx
   obtain ⟨m, gxBytes, gx, pk, keyID, ours, hd, hc, hh, hmpi, hg, hge1, hge2, ho, hok, hs1⟩ :=
     c01_guard_responder K msg s s1 a ha h1
   subst hs1
   rw [runM_bind] at hx
-  obtain ⟨b2, s2, h2, hx⟩ := bindM_ok_inv hx
+  obtain ⟨b3, s3, h23, hx⟩ := bindM_ok_inv hx
+  have h23' : runM (do let m ← sigMessage K; wrapMessageHeader msgTypeSig m) (revealDone K s a gx pk keyID) =
+      .ok (.ok b3, s3) := by
+    rcases tryCatch_restore_cases h23 with ⟨_, hb, h⟩ | ⟨_, _, hb, -, -⟩
+    · cases hb; exact h
+    · cases hb
+  clear h23
+  rw [runM_bind] at h23'
+  obtain ⟨b2, s2, h2, h3⟩ := bindM_ok_inv h23'
   obtain ⟨hc2, he2⟩ := sigMessage_conv K _ _ rfl _ _ h2
-  rw [runM_bind] at hx
-  obtain ⟨b3, s3, h3, hx⟩ := bindM_ok_inv hx
   obtain ⟨tg, hc3, he3⟩ := wrapMessageHeader_conv _ _ _ _ _ h3
   rw [hc2] at hc3
   rw [he2] at he3
@@ -1648,21 +1733,20 @@ def akeTail (K : Crypto) (st : AuthState) (x : AuthState × Option Bytes × Opti
     M (List Bytes × Option Err) := do
   modAke fun a => { a with state := x.1 }
   let extra ← retransmitAfterCompletedExchange K st x.1 x.2.2
-  let t ← now
-  modAke fun a => { a with lastStateChange := some t }
+  akeStamp st x.2.1 x.2.2
   return ((match x.2.1 with | some m => [m] | none => []) ++ extra, x.2.2)
 
 theorem akeTail_quiet (K : Crypto) (st : AuthState) (x : AuthState × Option Bytes × Option Err) :
     Stable QuietFrame (akeTail K st x) := by
   unfold akeTail modAke
-  stable [retransmitAfterCompletedExchange_quiet]
+  stable [retransmitAfterCompletedExchange_quiet, (akeStamp_base _ _ _).base_strict.strict_quiet]
 
 theorem akeRest_revealSig (K : Crypto) (msg : Bytes) (st : AuthState) (s : MState) :
     runM (akeRest K msgTypeRevealSig msg st) s =
       bindM (runM (recvRevealSig K st msg) s) (fun x s1 => runM (akeTail K st x) s1) := by
   unfold akeRest akeDispatch akeTail
   simp only [if_neg (by decide : msgTypeRevealSig ≠ msgTypeDHCommit),
-    if_neg (by decide : msgTypeRevealSig ≠ msgTypeDHKey), if_pos, runM_bind, bindM_assoc, runM_pure, bindM_ok]
+    if_neg (by decide : msgTypeRevealSig ≠ msgTypeDHKey), if_pos, runM_bind, bindM_assoc, runM_pure, bindM_ok, runM_ite, bindM_ite]
 
 theorem akeRest_sig (K : Crypto) (msg : Bytes) (st : AuthState) (s : MState) :
     runM (akeRest K msgTypeSig msg st) s =
@@ -1670,7 +1754,7 @@ theorem akeRest_sig (K : Crypto) (msg : Bytes) (st : AuthState) (s : MState) :
   unfold akeRest akeDispatch akeTail
   simp only [if_neg (by decide : msgTypeSig ≠ msgTypeDHCommit),
     if_neg (by decide : msgTypeSig ≠ msgTypeDHKey), if_neg (by decide : msgTypeSig ≠ msgTypeRevealSig),
-    if_pos, runM_bind, bindM_assoc, runM_pure, bindM_ok]
+    if_pos, runM_bind, bindM_assoc, runM_pure, bindM_ok, runM_ite, bindM_ite]
 
 theorem bindM_error_inv {α β} {r : Out α} {f : α → MState → Out β} {er : Err} {s' : MState}
     (h : bindM r f = .ok (.error er, s')) :
@@ -1808,8 +1892,8 @@ def RespGuards (K : Crypto) (msg : Bytes) (a : Ake) (gx : Nat) (pk : DsaPub) (ke
 
 /-- every outcome of `recvRevealSig` in `awaitingRevealSig`: it finished (returned state `none`), or it failed
     and then: no event, `msgState`, the key context and the role flag `sentRevealSig` unchanged, the session id
-    of an encrypted conversation unchanged; `theirKey` is unchanged, or — when the message itself was accepted but building the Signature
-    reply failed (signing oracle / header) — it is the key verified in this step -/
+    of an encrypted conversation unchanged; and (repaired code) `theirKey` is unchanged — also when the message
+    itself was accepted but building the Signature reply failed (signing oracle / header) -/
 theorem recvRevealSig_awaiting_cases (K : Crypto) (msg : Bytes) (s s1 : MState) (a : Ake) (ha : s.conv.ake = some a)
     (r : Except Err (AuthState × Option Bytes × Option Err))
     (h : runM (recvRevealSig K .awaitingRevealSig msg) s = .ok (r, s1)) :
@@ -1818,16 +1902,14 @@ theorem recvRevealSig_awaiting_cases (K : Crypto) (msg : Bytes) (s s1 : MState) 
       s1.events = s.events ∧ s1.conv.msgState = s.conv.msgState ∧ s1.conv.keys = s.conv.keys ∧
       (s.conv.msgState = .encrypted → s1.conv.ssid = s.conv.ssid) ∧
       s1.conv.sentRevealSig = s.conv.sentRevealSig ∧
-      (s1.conv.theirKey = s.conv.theirKey ∨
-        ∃ gx pk keyID, RespGuards K msg a gx pk keyID ∧ s1.conv.theirKey = some pk)) := by
+      s1.conv.theirKey = s.conv.theirKey) := by
   unfold recvRevealSig at h
   simp only at h
   rcases akeTry_cases h with ⟨u, hr, hx⟩ | ⟨er, hr, hx⟩
   · left
+    rw [runM_bind, runM_getc, bindM_ok] at hx
     rw [runM_bind] at hx
     obtain ⟨_, s2, -, hx⟩ := bindM_ok_inv hx
-    rw [runM_bind] at hx
-    obtain ⟨b2, s3, -, hx⟩ := bindM_ok_inv hx
     rw [runM_bind] at hx
     obtain ⟨b3, s4, -, hx⟩ := bindM_ok_inv hx
     rw [runM_bind] at hx
@@ -1844,48 +1926,66 @@ theorem recvRevealSig_awaiting_cases (K : Crypto) (msg : Bytes) (s s1 : MState) 
     exact ⟨some b3, e5, by rw [hr, ← hx.1]⟩
   · right
     refine ⟨er, hr, ?_⟩
+    rw [runM_bind, runM_getc, bindM_ok] at hx
     rw [runM_bind] at hx
     rcases bindM_error_inv hx with h1 | ⟨u, s2, h1, hx⟩
     · obtain ⟨heq, hss⟩ := c01_guard_responder_throw K msg s s1 a ha er h1
       exact ⟨congrArg (·.events) heq, congrArg (·.conv.msgState) heq, congrArg (·.conv.keys) heq, hss,
-        congrArg (·.conv.sentRevealSig) heq, Or.inl (congrArg (·.conv.theirKey) heq)⟩
+        congrArg (·.conv.sentRevealSig) heq, congrArg (·.conv.theirKey) heq⟩
     · obtain ⟨m, gxBytes, gx, pk, keyID, ours, hd, hc, hh, hmpi, hg, hge1, hge2, ho, hok, hs2⟩ :=
         c01_guard_responder K msg s s2 a ha h1
       subst hs2
-      have hguard : RespGuards K msg a gx pk keyID := ⟨m, gxBytes, ours, hd, hc, hh, hmpi, hge1, hge2, ho, hok⟩
       have hssid : s.conv.msgState = .encrypted → (revealDone K s a gx pk keyID).conv.ssid = s.conv.ssid := by
         intro he
         show (if s.conv.msgState = .encrypted then _ else _) = _
         rw [if_pos he]
       rw [runM_bind] at hx
-      rcases bindM_error_inv hx with h2 | ⟨b2, s3, h2, hx⟩
-      · obtain ⟨hc2, he2⟩ := sigMessage_conv K _ _ rfl _ _ h2
-        refine ⟨he2, by rw [hc2]; rfl, by rw [hc2]; rfl, fun he => by rw [hc2]; exact hssid he, by rw [hc2]; rfl,
-          Or.inr ⟨gx, pk, keyID, hguard, by rw [hc2]; rfl⟩⟩
-      · obtain ⟨hc2, he2⟩ := sigMessage_conv K _ _ rfl _ _ h2
-        rw [runM_bind] at hx
-        rcases bindM_error_inv hx with h3 | ⟨b3, s4, h3, hx⟩
-        · obtain ⟨tg, hc3, he3⟩ := wrapMessageHeader_conv _ _ _ _ _ h3
-          rw [hc2] at hc3
-          rw [he2] at he3
-          refine ⟨he3, by rw [hc3]; rfl, by rw [hc3]; rfl, fun he => by rw [hc3]; exact hssid he,
-            by rw [hc3]; rfl, Or.inr ⟨gx, pk, keyID, hguard, by rw [hc3]; rfl⟩⟩
-        · exfalso
-          obtain ⟨tg, hc3, he3⟩ := wrapMessageHeader_conv _ _ _ _ _ h3
-          rw [hc2] at hc3
-          rw [runM_bind, akeSetTheirCurrent_run s4 _ (by rw [hc3])] at hx
-          simp only [revealAke, bindM_ok] at hx
-          rw [runM_bind, akeSetOurCurrent_run _ _ rfl] at hx
-          simp only [ho, bindM_ok, runM_bind, runM_modc, modAke, Option.map] at hx
-          rcases bindM_error_inv hx with h4 | ⟨e5, s5, -, hx⟩
-          · exact akeHasFinished_no_throw K _ _ _ h4
-          · simp only [runM_pure, Res.ok.injEq, Prod.mk.injEq, reduceCtorEq, false_and] at hx
+      rcases bindM_error_inv hx with h23 | ⟨b3, s4, h23, hx⟩
+      · rcases tryCatch_restore_cases h23 with ⟨_, hb, -⟩ | ⟨er', s3, -, h23', hs1⟩
+        · cases hb
+        · subst hs1
+          rw [runM_bind] at h23'
+          rcases bindM_error_inv h23' with h2 | ⟨b2, s3', h2, h3⟩
+          · obtain ⟨hc2, he2⟩ := sigMessage_conv K _ _ rfl _ _ h2
+            refine ⟨he2, ?_, ?_, fun he => ?_, ?_, rfl⟩
+            · show s3.conv.msgState = _; rw [hc2]; rfl
+            · show s3.conv.keys = _; rw [hc2]; rfl
+            · show s3.conv.ssid = _; rw [hc2]; exact hssid he
+            · show s3.conv.sentRevealSig = _; rw [hc2]; rfl
+          · obtain ⟨hc2, he2⟩ := sigMessage_conv K _ _ rfl _ _ h2
+            obtain ⟨tg, hc3, he3⟩ := wrapMessageHeader_conv _ _ _ _ _ h3
+            rw [hc2] at hc3
+            rw [he2] at he3
+            refine ⟨he3, ?_, ?_, fun he => ?_, ?_, rfl⟩
+            · show s3.conv.msgState = _; rw [hc3]; rfl
+            · show s3.conv.keys = _; rw [hc3]; rfl
+            · show s3.conv.ssid = _; rw [hc3]; exact hssid he
+            · show s3.conv.sentRevealSig = _; rw [hc3]; rfl
+      · exfalso
+        have h23' : runM (do let m ← sigMessage K; wrapMessageHeader msgTypeSig m) (revealDone K s a gx pk keyID) =
+            .ok (.ok b3, s4) := by
+          rcases tryCatch_restore_cases h23 with ⟨_, hb, h⟩ | ⟨_, _, hb, -, -⟩
+          · cases hb; exact h
+          · cases hb
+        clear h23
+        rw [runM_bind] at h23'
+        obtain ⟨b2, s3, h2, h3⟩ := bindM_ok_inv h23'
+        obtain ⟨hc2, he2⟩ := sigMessage_conv K _ _ rfl _ _ h2
+        obtain ⟨tg, hc3, he3⟩ := wrapMessageHeader_conv _ _ _ _ _ h3
+        rw [hc2] at hc3
+        rw [runM_bind, akeSetTheirCurrent_run s4 _ (by rw [hc3])] at hx
+        simp only [revealAke, bindM_ok] at hx
+        rw [runM_bind, akeSetOurCurrent_run _ _ rfl] at hx
+        simp only [ho, bindM_ok, runM_bind, runM_modc, modAke, Option.map] at hx
+        rcases bindM_error_inv hx with h4 | ⟨e5, s5, -, hx⟩
+        · exact akeHasFinished_no_throw K _ _ _ h4
+        · simp only [runM_pure, Res.ok.injEq, Prod.mk.injEq, reduceCtorEq, false_and] at hx
 
 /-- C01, responder side, at the level of `processAKE`: a Reveal-Signature message received in
     `awaitingRevealSig` either passes every check and installs exactly the verified values, or the step fails
     without touching `msgState`, the key material, the session id and role flag of an encrypted conversation or
-    emitting a security event; in the failing case `theirKey` is unchanged or is a key verified by this very message
-    (the reply could not be built) -/
+    emitting a security event; in the failing case (repaired code) `theirKey` is unchanged as well, also when
+    the reply could not be built -/
 theorem c01_processAKE_revealSig (K : Crypto) (msg : Bytes) (s s' : MState) (a : Ake) (ha : s.conv.ake = some a)
     (hst : a.state = .awaitingRevealSig) (r : Except Err (List Bytes × Option Err))
     (h : runM (processAKE K msgTypeRevealSig msg) s = .ok (r, s')) :
@@ -1898,8 +1998,7 @@ theorem c01_processAKE_revealSig (K : Crypto) (msg : Bytes) (s s' : MState) (a :
       (s.conv.msgState = .encrypted → s'.conv.ssid = s.conv.ssid) ∧
       (s.conv.msgState = .encrypted → s'.conv.sentRevealSig = s.conv.sentRevealSig) ∧
       s'.events.filter isSecEvent = s.events.filter isSecEvent ∧
-      (s'.conv.theirKey = s.conv.theirKey ∨
-        ∃ gx pk keyID, RespGuards K msg a gx pk keyID ∧ s'.conv.theirKey = some pk)) := by
+      s'.conv.theirKey = s.conv.theirKey) := by
   rw [processAKE_run_some K _ msg s a ha, hst, akeRest_revealSig] at h
   cases hx : runM (recvRevealSig K .awaitingRevealSig msg) s with
   | panic p => rw [hx] at h; cases h
@@ -1930,12 +2029,9 @@ theorem c01_processAKE_revealSig (K : Crypto) (msg : Bytes) (s s' : MState) (a :
         have he' : s'.conv.msgState = .encrypted := by rw [q1]; exact he1
         rw [if_pos he', if_pos he1] at q4
         exact Prod.mk.inj (Option.some.inj q4)
-      refine ⟨by rw [q1, hms], by rw [q3, hks], fun he => ?_, fun he => ?_, by rw [q5, hev], ?_⟩
+      refine ⟨by rw [q1, hms], by rw [q3, hks], fun he => ?_, fun he => ?_, by rw [q5, hev], by rw [q2, htk]⟩
       · rw [(hpair he).1, hss he]
       · rw [(hpair he).2, hrs]
-      · rcases htk with htk | ⟨gx, pk, keyID, hg, htk⟩
-        · exact Or.inl (by rw [q2, htk])
-        · exact Or.inr ⟨gx, pk, keyID, hg, by rw [q2, htk]⟩
 
 /-- `revealSigMessage` (whatever it returns or throws): the AKE keys are computed from the stored DH value
     (`afterCalc`), `ake.keys.ourKeyID` is incremented, nothing else of the conversation changes; no event -/
@@ -2058,13 +2154,11 @@ def retransmitIdle (c : Conv) : Prop := c.resendMsgs = [] ∨ c.mayRetransmit = 
 theorem akeTail_ignored_strict (K : Crypto) (st : AuthState) (s : MState)
     (r : Except Err (List Bytes × Option Err)) (s' : MState)
     (h : runM (akeTail K st (st, none, none)) s = .ok (r, s')) : strictKept s' = strictKept s := by
-  unfold akeTail at h
-  rw [runM_bind] at h
-  simp only [modAke, runM_modc, bindM_ok] at h
-  rw [runM_bind, retransmitAfterCompletedExchange_same] at h
-  simp only [bindM_ok, runM_bind, runM_now, runM_modc, runM_pure, Res.ok.injEq, Prod.mk.injEq] at h
-  rw [← h.2]
-  rfl
+  have hst : Stable StrictFrame (akeTail K st (st, none, none)) := by
+    unfold akeTail modAke
+    simp only [retransmitAfterCompletedExchange_same]
+    stable [(akeStamp_base _ _ _).base_strict]
+  exact hst _ _ _ h
 
 /-- C01/1 (frame, strict, also for Reveal-Signature / Signature messages; repaired code): outside the two
     finishing combinations the whole key context is unchanged — an ignored Reveal-Signature or Signature message
@@ -2212,15 +2306,14 @@ theorem c01_role_kept_processAKE (K : Crypto) (t : Nat) (msg : Bytes) (s : MStat
   exact ⟨h1, h7, h6⟩
 
 /-- what `processAKE` does after `recvDHKey` returned the triple `x` (no retransmission on this path) -/
-def akeTailDH (x : AuthState × Option Bytes × Option Err) : M (List Bytes × Option Err) := do
+def akeTailDH (st : AuthState) (x : AuthState × Option Bytes × Option Err) : M (List Bytes × Option Err) := do
   modAke fun a => { a with state := x.1 }
-  let t ← now
-  modAke fun a => { a with lastStateChange := some t }
+  akeStamp st x.2.1 x.2.2
   return ((match x.2.1 with | some m => [m] | none => []) ++ [], x.2.2)
 
 theorem akeRest_dhKey (K : Crypto) (msg : Bytes) (st : AuthState) (s : MState) :
     runM (akeRest K msgTypeDHKey msg st) s =
-      bindM (runM (recvDHKey K st msg) s) (fun x s1 => runM (akeTailDH x) s1) := by
+      bindM (runM (recvDHKey K st msg) s) (fun x s1 => runM (akeTailDH st x) s1) := by
   unfold akeRest akeDispatch akeTailDH
   simp only [if_neg (by decide : msgTypeDHKey ≠ msgTypeDHCommit), if_pos, runM_bind, bindM_assoc, runM_pure,
     bindM_ok]
@@ -2256,32 +2349,39 @@ theorem c01_role_pending_processAKE (K : Crypto) (msg : Bytes) (s s' : MState) (
     · subst hv
       obtain ⟨st1, om, e⟩ := u
       unfold akeTailDH at h
-      simp only [bindM_ok, runM_bind, modAke, runM_modc, runM_now, runM_pure, Res.ok.injEq, Prod.mk.injEq] at h
-      obtain ⟨-, rfl⟩ := h
-      change Option.map _ (Option.map _ s1.conv.ake) = some a' at ha'
+      simp only [bindM_ok, runM_bind, modAke, runM_modc] at h
       cases ha1 : s1.conv.ake with
-      | none => rw [ha1] at ha'; cases ha'
+      | none =>
+        rw [akeStamp_run_none _ _ _ _ (by show Option.map _ s1.conv.ake = none; rw [ha1]; rfl)] at h
+        cases h
       | some a1 =>
-        rw [ha1] at ha'
-        simp only [Option.map, Option.some.injEq] at ha'
+        rw [akeStamp_run _ _ _ _ _ (by show Option.map _ s1.conv.ake = some _; rw [ha1]; rfl)] at h
+        simp only [bindM_ok, runM_pure, Res.ok.injEq, Prod.mk.injEq] at h
+        obtain ⟨-, rfl⟩ := h
+        simp only [Option.some.injEq] at ha'
         subst ha'
+        rw [stampAke_state] at hst'
         have hs1 : st1 = .awaitingSig rsm := hst'
         subst hs1
         obtain ⟨a1', h1, h2⟩ := hpend rsm om e rfl
         rw [ha1] at h1
         cases h1
+        rw [stampAke_sentRevealSig]
         exact h2
     · subst hv
       unfold akeTailDH at h
-      simp only [bindM_ok, runM_bind, modAke, runM_modc, runM_now, runM_pure, Res.ok.injEq, Prod.mk.injEq] at h
-      obtain ⟨-, rfl⟩ := h
-      change Option.map _ (Option.map _ s1.conv.ake) = some a' at ha'
+      simp only [bindM_ok, runM_bind, modAke, runM_modc] at h
       cases ha1 : s1.conv.ake with
-      | none => rw [ha1] at ha'; cases ha'
+      | none =>
+        rw [akeStamp_run_none _ _ _ _ (by show Option.map _ s1.conv.ake = none; rw [ha1]; rfl)] at h
+        cases h
       | some a1 =>
-        rw [ha1] at ha'
-        simp only [Option.map, Option.some.injEq] at ha'
+        rw [akeStamp_run _ _ _ _ _ (by show Option.map _ s1.conv.ake = some _; rw [ha1]; rfl)] at h
+        simp only [bindM_ok, runM_pure, Res.ok.injEq, Prod.mk.injEq] at h
+        obtain ⟨-, rfl⟩ := h
+        simp only [Option.some.injEq] at ha'
         subst ha'
+        rw [stampAke_state] at hst'
         cases hst'
 
 /-- C01/6: `akeHasFinished` commits the role flag together with the session id.  From an encrypted conversation
